@@ -60,6 +60,9 @@ def run_f1(rep, pid, tier, bound=None, names=None):
 
 def run_f2(rep, pid, tier, bound=2):
     scs = f2.scenarios(tier)
+    if pid != "C10" and tier == "quick":
+        # the full sweep (all tick rates, all neighbours) belongs to C10; the other properties use the dyadic part
+        scs = [sc for sc in scs if sc["tps"] <= 2]
     res = pmap(lambda sc: f2.explore(sc, bound), scs)
     for sc, tot in zip(scs, res):
         fold(rep, pid, "F2", sc, tot)
